@@ -1490,6 +1490,15 @@ macro_rules! bq_exact_case {
 }
 
 fn c03(rng: &mut Rng, thorough: bool, _hints: &[Vec<String>], rep: &mut Report) {
+    // listed witness of F-C03 (checked profile): b0 = b1 = a1 = -128, x0 = x1 = y1 = -128 on i8
+    {
+        let bq = idsp::iir::Biquad::<i8>::from([-128, -128, 0, -128, 0]);
+        let mut xy = [-128i8, 0, -128, 0];
+        let r = guard(|| bq.update(&mut xy, -128));
+        if r != Some(127) {
+            rep.violation("biquad-partial-sum-overflow", "no panic while the exact sum fits the accumulator", "Biquad<i8>{ba:[-128,-128,0,-128,0]}.update::<4>([-128,0,-128,0], -128)  (exact total 16384 fits i16)", "y=127", &format!("{:?}", r.map(|v| v.to_string()).unwrap_or("PANIC".into())));
+        }
+    }
     let n = if thorough { 400_000 } else { 40_000 };
     for i in 0..n {
         match i % 4 {
@@ -2291,6 +2300,7 @@ fn c07(rng: &mut Rng, thorough: bool, _hints: &[Vec<String>], rep: &mut Report) 
     let mut cfgs = vec![];
     // the listed witness first
     cfgs.push((8u32, 23u32, 22u32, 990i64, 351i64));
+    cfgs.push((2u32, 3u32, 2u32, 6i64, 1i64)); // listed edge-of-region witness (never locks)
     for i in 0..ncfg {
         let dt2 = 2 + rng.below(10) as u32;
         let sf = (dt2 + 1 + rng.below(max_span as u64) as u32).min(30);
@@ -2491,9 +2501,16 @@ fn hz(ba: &[[f64; 3]; 2], zi: (f64, f64)) -> ((f64, f64), (f64, f64)) {
 fn c09(rng: &mut Rng, thorough: bool, _hints: &[Vec<String>], rep: &mut Report) {
     let n = if thorough { 1_000_000 } else { 100_000 };
     for i in 0..n {
-        let (f0, shape, sk, sv, gain, shelf) = crate::gen::coeff_params(rng);
+        let (mut f0, mut shape, mut sk, mut sv, mut gain, mut shelf) = crate::gen::coeff_params(rng);
+        let mut typ = rng.below(9);
+        if i == 0 {
+            // listed witness of F-C09-b: steep slope at a large shelf gain
+            (f0, shape, sk, sv, gain, shelf, typ) = (0.1, idsp::iir::Shape::Slope(2.0), 2, 2.0, 1.0, 100.0, 6);
+        } else if i == 1 {
+            // listed witness of F-C09-c: a bandwidth of tens of octaves
+            (f0, shape, sk, sv, gain, shelf, typ) = (0.40, idsp::iir::Shape::Bandwidth(44.3), 1, 44.3, 1.0, 1.0, 0);
+        }
         let w0 = std::f64::consts::TAU * f0;
-        let typ = rng.below(9);
         let mut f = idsp::iir::Filter::<f64>::default();
         crate::gen::coeff_setup(rng, &mut f, w0, shape, gain, shelf);
         let ba = crate::gen::coeff_build(&f, typ);
